@@ -579,6 +579,36 @@ class Model:
 
         return ChainState(pos=np.array(q, dtype=float), mom=np.array(p, dtype=float), dir=direction)
 
+    def used_state(self, q, p, direction=1, how="pickle"):
+        """A state holding (q, p) that has a past: system methods were evaluated on it at another point (so its cache and
+        dependency registry are populated), it went through copy / pickle / deepcopy, and only then was it assigned the
+        requested variables.  how == "fresh" gives a newly constructed state."""
+        import copy
+        import pickle
+
+        if how == "fresh":
+            return self.state(q, p, direction)
+        q = np.asarray(q, dtype=float)
+        p = np.asarray(p, dtype=float)
+        st = self.state(q + 0.3, 0.5 * p + 0.1, 1)
+        for name in ("h", "dh_dpos", "dh_dmom", "h1", "dh1_dpos"):
+            try:
+                getattr(self.system, name)(st)
+            except Exception:  # noqa: BLE001, S110 - the warm-up point is arbitrary (may be outside a solver's domain)
+                pass
+        if how == "copy":
+            st = st.copy()
+        elif how == "pickle":
+            st = pickle.loads(pickle.dumps(st))  # noqa: S301
+        elif how == "deepcopy":
+            st = copy.deepcopy(st)
+        else:
+            raise ValueError(how)
+        st.pos = np.array(q, dtype=float)
+        st.mom = np.array(p, dtype=float)
+        st.dir = direction
+        return st
+
     def random_state(self, rng, scale=1.0, direction=1):
         q, p = self.random_point(rng, scale)
         return self.state(q, p, direction)
